@@ -2,7 +2,9 @@ import Splipy.Lemmas.C18Cells
 import Splipy.Lemmas.C18Sort
 import Splipy.Lemmas.C18Ifem
 import Splipy.Lemmas.C18Faces
-import Splipy.Lemmas.C18NumberingA
+import Splipy.Lemmas.C18NumberingE
+import Splipy.Lemmas.C18Example
+import Splipy.Lemmas.C18Cps
 import Splipy.Lemmas.C18Witness
 
 /-!
@@ -50,15 +52,6 @@ def C18_NumberingCorrect (dimension : ℕ) (objs : List Obj) : Prop :=
 def C18_numbering : Prop :=
   ∀ (dimension : ℕ) (objs : List Obj), conformingNets objs = true → C18_NumberingCorrect dimension objs
 
-theorem C18_getD_toList (N : Array (NdArr ℤ)) (k j : ℕ) :
-    (N.getD k default).data.getD j 0 = ((N.toList.map (·.data.toList)).getD k []).getD j 0 := by
-  simp only [Array.getD_eq_getD_getElem?, List.getD_eq_getElem?_getD, List.getElem?_map, Array.getElem?_toList]
-  cases N[k]? with
-  | none =>
-    have hd : (default : NdArr ℤ).data = #[] := rfl
-    simp [hd]
-  | some a => simp
-
 /-- **Refutation of the full statement** by the two-cube witnesses, evaluated by the kernel on the
     executable model: two trilinear unit cubes with conforming nets
     * in FACE contact get 12 numbers for their 12 distinct points (the algorithm is right there),
@@ -81,67 +74,91 @@ theorem C18_numbering_counterexample :
     have hn := C18W.edge_numbers
     simp only [C18W.numbersOf, hnum, Option.some.injEq, Prod.mk.injEq] at hn
     have h := (hiff 0 1 6 0 (by decide) (by decide) (by decide) (by decide)).2 C18W.edge_coincidence
-    rw [C18_getD_toList, C18_getD_toList, hn.1] at h
+    rw [C18W.getD_toList, C18W.getD_toList, hn.1] at h
     exact absurd h (by decide)
   have hcorner : ¬ C18_NumberingCorrect 3 C18W.cornerContact := by
     rintro ⟨N, ncps, hnum, hiff, -, -⟩
     have hn := C18W.corner_numbers
     simp only [C18W.numbersOf, hnum, Option.some.injEq, Prod.mk.injEq] at hn
     have h := (hiff 0 1 7 0 (by decide) (by decide) (by decide) (by decide)).2 C18W.corner_coincidence
-    rw [C18_getD_toList, C18_getD_toList, hn.1] at h
+    rw [C18W.getD_toList, C18W.getD_toList, hn.1] at h
     exact absurd h (by decide)
   exact ⟨C18W.face_numbers, C18W.edge_numbers, C18W.corner_numbers, C18W.point_counts.1, C18W.point_counts.2.1,
     C18W.point_counts.2.2, C18W.conforming.2.1, C18W.conforming.2.2, hedge, hcorner,
     fun h => hedge (h 3 _ C18W.conforming.2.1)⟩
 
-/-- **Same number ⇒ same geometric point, for EVERY history** (no hypothesis on the way the
-    patches touch).  `plans` are the plans of the model, `P` any arrays attached to the patches
-    (the control nets) that have the shapes of the number arrays, that the face links of the plans
-    transport onto themselves (`hG1` — this is what soundness of `Orientation.compute`,
-    `C17_compute_sound`, provides for the catalogue's plans: the orientation stored in a link maps
-    the owner's section net onto the patch's section net) and that do not contain the junk value
-    `default`.  Then the final numbers `N` and the points `P` sit side by side in arrays `Z` of
-    pairs, and any two entries of the model with the same number (other than the flag `-1`)
-    carry the same point.
+/-- **Correctness of the numbering algorithm, with the precise hypothesis** (on the plans of
+    `numberPlans`; positions `q` are flat C-order positions of the patch at position `k` of
+    `top_nodes()`).
 
-    PARTIAL with respect to the numbering clause of C18: this is the direction "same number ⇒ same
-    point" (plus, below, the fresh numbers `0..ncps-1`).  The converse "same point ⇒ same number"
-    is FALSE in general (`C18_numbering_counterexample`); it needs the star hypothesis: whenever a
-    control point of the patch at position `k` occurs in an earlier patch, it lies on a
-    codimension-1 section of `k` that is not owned by `k` (a FACE shared with an earlier patch) —
-    every pair of patches sharing a vertex or edge is connected through shared faces at the time
-    the later one is added — and no patch contains a point twice (self-connected patches).  Under
-    that hypothesis the converse is covered by the correspondence run and the geometric oracle
-    only; it is not proved here. -/
+    Data: `plans` the plans of the model, `P` arrays attached to the patches (their control nets, as
+    points of any type `γ` with a junk value `default` that no control point equals), `N`, `ncps` the
+    result of `generate_cp_numbers`.  Structural hypotheses (all three hold for the plans the
+    catalogue of a history of top-dimensional patches produces; they are the catalogue invariants of
+    C17 and are checked on every generated case through the `plans` observable of the
+    correspondence run):
+    * `hcompat`: `P` has the shapes of the number arrays;
+    * `hG1`: transporting `P` through the face links reproduces `P` — the orientation stored in a
+      link maps the owner's section net onto the reader's section net (soundness of
+      `Orientation.compute`, `C17_compute_sound`);
+    * `hord`: a face that is read belongs to an EARLIER top node (ownership is first come).
+
+    Conclusions, for EVERY such history:
+    1. every number is one of `0 … ncps-1` (no `-1` left, nothing else),
+    2. every one of `0 … ncps-1` is used,
+    3. same number ⇒ same point;
+    and under the STAR hypothesis
+    * `hstar`: whenever a control point of the patch at position `k` occurs in an earlier patch, it
+      lies on a codimension-1 section of `k` that `k` does not own, i.e. on a FACE shared with an
+      earlier patch (every pair of patches sharing a vertex or an edge is connected through shared
+      faces among the patches present when the later one is added),
+    * `hinj`: no patch contains the same point twice (no self-connected patch),
+    4. same number ⇔ same point.
+
+    PARTIAL with respect to the numbering clause of C18: the star hypothesis cannot be dropped
+    (`C18_numbering_counterexample`: it fails for edge-only / corner-only contact; the harness also
+    shows it failing for an L-shape whose corner patch is added last, and for self-connected
+    patches); the statement is about `numberPlans` on plans with the hypotheses above rather than
+    about the catalogue (`C17_catalogue_canonical` is only partially proved); the `cps()` clause is
+    `C18_cps_partial`. -/
 theorem C18_numbering_partial {γ : Type} [Inhabited γ] (plans : List PatchPlan) (P : List (NdArr γ))
     (hcompat : Compat (generateAll plans 0).1 P)
     (hG1 : readAllG plans P.toArray = .ok P.toArray)
-    (hpts : ∀ p ∈ allData P, p ≠ default)
+    (hpts : ∀ p ∈ allData P, p ≠ default) (hord : WellOrdered plans)
     (N : Array (NdArr ℤ)) (ncps : ℕ) (hnum : numberPlans plans = .ok (N, ncps)) :
-    (∃ Z : Array (NdArr (ℤ × γ)), Z.map (NdArr.map Prod.fst) = N ∧ Z.map (NdArr.map Prod.snd) = P.toArray ∧
-      ∀ x y, AllEntries Z x → AllEntries Z y → x.1 = y.1 → x.1 ≠ -1 → x.2 = y.2) ∧
-    -- the first loop hands out exactly the numbers 0 … ncps-1, each once
-    ((allData (generateAll plans 0).1).filter (· ≠ -1) = (List.range ncps).map (fun (n : ℕ) => (n : ℤ))) ∧
-    -- the second loop only moves entries: every final number is one of those, or the flag, or
-    -- the default `0` read outside an array
-    (∀ n, AllEntries N n → n = 0 ∨ n = -1 ∨ (0 ≤ n ∧ n < ncps)) := by
-  obtain ⟨hread, hn⟩ := numberPlans_ok hnum
-  have hfresh := (generateAll_fresh plans 0).2
-  rw [Nat.sub_zero, ← hn, ← List.range_eq_range'] at hfresh
-  refine ⟨number_determines_point plans P hcompat hG1 hpts N ncps hnum, hfresh, ?_⟩
-  intro n hN
-  rcases readAllG_entries hread hN with h | h
-  · exact Or.inl h
-  · have hmem := allEntries_toArray _ _ h
-    by_cases h1 : n = -1
-    · exact Or.inr (Or.inl h1)
-    · have : n ∈ (allData (generateAll plans 0).1).filter (· ≠ -1) := List.mem_filter.2 ⟨hmem, by simpa using h1⟩
-      rw [hfresh] at this
-      obtain ⟨m, hm, rfl⟩ := List.mem_map.1 this
-      exact Or.inr (Or.inr ⟨by omega, by exact_mod_cast List.mem_range.1 hm⟩)
+    (∀ k q, ValidPos plans k q → ∃ m : ℕ, m < ncps ∧ numAt N k q = m) ∧
+    (∀ m : ℕ, m < ncps → ∃ k q, ValidPos plans k q ∧ numAt N k q = m) ∧
+    (∀ k k' q q', ValidPos plans k q → ValidPos plans k' q' →
+      numAt N k q = numAt N k' q' → ptAt P k q = ptAt P k' q') ∧
+    ((∀ k k' q q', ValidPos plans k q → ValidPos plans k' q' → k' < k → ptAt P k q = ptAt P k' q' →
+        ∃ p, plans[k]? = some p ∧ Flagged p q) →
+     (∀ k q q', ValidPos plans k q → ValidPos plans k q' → ptAt P k q = ptAt P k q' → q = q') →
+     ∀ k k' q q', ValidPos plans k q → ValidPos plans k' q' →
+      (numAt N k q = numAt N k' q' ↔ ptAt P k q = ptAt P k' q')) := by
+  obtain ⟨F⟩ := runFacts plans P hcompat hG1 hpts hord N ncps hnum
+  have hdet : ∀ k k' q q', ValidPos plans k q → ValidPos plans k' q' →
+      numAt N k q = numAt N k' q' → ptAt P k q = ptAt P k' q' := by
+    intro k k' q q' hv hv' heq
+    refine F.det k k' q q' hv hv' heq ?_
+    obtain ⟨m, -, hm⟩ := F.range k q hv
+    rw [hm]; omega
+  exact ⟨F.range, F.onto, hdet,
+    fun hstar hinj k k' q q' hv hv' => ⟨hdet k k' q q' hv hv', F.same_point hstar hinj k k' q q' hv hv'⟩⟩
 
-/-- the hypotheses of `C18_numbering_partial` are satisfiable (face-contact cubes: the control nets
-    are transported onto themselves), and there the conclusion is not vacuous (12 numbers). -/
+/-- all hypotheses of `C18_numbering_partial`, including the star hypothesis, are satisfiable and
+    the conclusion is not vacuous: two segments `A—B`, `B—C` get the 3 numbers `0,1 / 1,2`. -/
+example : ∃ (plans : List PatchPlan) (P : List (NdArr ℕ)) (N : Array (NdArr ℤ)) (ncps : ℕ),
+    Compat (generateAll plans 0).1 P ∧ readAllG plans P.toArray = .ok P.toArray ∧
+    (∀ p ∈ allData P, p ≠ default) ∧ WellOrdered plans ∧ numberPlans plans = .ok (N, ncps) ∧
+    (∀ k k' q q', ValidPos plans k q → ValidPos plans k' q' → k' < k → ptAt P k q = ptAt P k' q' →
+        ∃ p, plans[k]? = some p ∧ Flagged p q) ∧
+    (∀ k q q', ValidPos plans k q → ValidPos plans k q' → ptAt P k q = ptAt P k q' → q = q') ∧
+    ncps = 3 ∧ ValidPos plans 1 0 :=
+  ⟨C18X.plans, C18X.pts, C18X.nums, 3, C18X.facts.1, C18X.facts.2.1, C18X.facts.2.2.1, C18X.facts.2.2.2.1,
+   C18X.facts.2.2.2.2, C18X.star, C18X.inj, rfl, ⟨_, rfl, by decide⟩⟩
+
+/-- the structural hypotheses also hold for the plans of a real history (two trilinear cubes in
+    face contact, control nets as points): 12 numbers. -/
 example : ∃ (plans : List PatchPlan) (P : List (NdArr (List ℚ))) (N : Array (NdArr ℤ)) (ncps : ℕ),
     Compat (generateAll plans 0).1 P ∧ readAllG plans P.toArray = .ok P.toArray ∧
     (∀ p ∈ allData P, p ≠ default) ∧ numberPlans plans = .ok (N, ncps) ∧ ncps = 12 := by
@@ -150,6 +167,29 @@ example : ∃ (plans : List PatchPlan) (P : List (NdArr (List ℚ))) (N : Array 
   · exact C18W.face_plan_run.1
   · exact C18W.face_plan_run.2.1
   · exact C18W.face_points_nonjunk
+
+/-- **`cps()` indexes consistently**: if `cps()` succeeds, all numbers are non-negative and a number
+    determines the control point (conclusions 1 and 3 of `C18_numbering_partial`), then the returned
+    table has `ncps` rows and holds at the number of EVERY control point of EVERY patch that control
+    point (`cps()[N_k[j]] = controlpoints_k[j]`; "last write wins" is harmless because all writes to
+    one row carry the same point).
+
+    PARTIAL: `cps()` does not always succeed — `controlpoints.reshape(-1, dimension)` raises
+    `ValueError` for rational patches (modelled; known finding `cps-rational-valueerror`), so for
+    rational models the clause "cps() returns each point's coordinates" fails outright. -/
+theorem C18_cps_partial (dimension : ℕ) (objs : List Obj) (cp : Array (NdArr ℤ)) (ncps : ℕ) (tbl : Array (List ℚ))
+    (h : cpsTable dimension objs cp ncps = .ok tbl)
+    (hnn : ∀ k j, k < objs.length → j < (cp.getD k default).data.size → 0 ≤ cpNum cp k j)
+    (hdet : ∀ k' j' k j, k' < objs.length → j' < (cp.getD k' default).data.size →
+      k < objs.length → j < (cp.getD k default).data.size → cpNum cp k' j' = cpNum cp k j →
+      (objs.getD k' default).cps.data.getD j' [] = (objs.getD k default).cps.data.getD j []) :
+    tbl.size = ncps ∧ ∀ k j, k < objs.length → j < (cp.getD k default).data.size →
+      tbl.getD (cpNum cp k j).toNat [] = (objs.getD k default).cps.data.getD j [] :=
+  cpsTable_spec dimension objs cp ncps tbl h hnn hdet
+
+/-- `cps()` of the face-contact cubes succeeds (12 rows): the hypothesis `h` is satisfiable. -/
+example : ∃ tbl, cpsTable 3 C18W.faceContact C18W.faceN 12 = .ok tbl ∧ tbl.size = 12 := by
+  refine ⟨_, C18W.face_cps.2, C18W.face_cps.1⟩
 
 /-! ## cells -/
 
